@@ -196,6 +196,8 @@ def clause_a(b, ev, vd, tier, work, rng, U):
             ucases.append({"op": "base", "g": g})
     richdir, rmeta = rich_images(b, list(geoms.values()))
     for n_ in geoms:
+        if rmeta.get(n_, {}).get("ok") and rmeta[n_].get("fsck_rc"):
+            ev.cov.setdefault("a_prestate_fsck_dirty", []).append("%s: e2fsck -fn exit %s" % (n_, rmeta[n_]["fsck_rc"]))
         if not rmeta.get(n_, {}).get("ok"):
             # a pre-state the tools cannot build consistently is itself tool output that e2fsck rejects; C07/C18 own that
             # verdict -- here the universe element is reported as not decided, and a mandatory one breaks the check
@@ -584,7 +586,7 @@ def offsets(o, tier, rng, full, few=False):
               "dxnode": [o["coff"], o["coff"] + 2, o["coff"] + 8 * o["count"] - 1, o["coff"] + 8 * o["count"], o["tail"] - 1, o["tail"], o["tail"] + 3, o["tail"] + 4, o["tail"] + 7],
               "bb": [o["nbytes"] - 1, o["nbytes"]], "ib": [o["nbytes"] - 1, o["nbytes"]], "mmp": [1019, 1020, 4, 8], "jsb": [251, 252, 255, 256, 12, 0x30]}
     s = {x for x in edges | set(fields.get(o["type"], [])) if 0 <= x < n}
-    k = (3 if few else 6) if tier == "quick" else 24
+    k = (3 if few else 6) if tier == "quick" else (8 if few else 24)
     s |= {rng.randrange(n) for _ in range(k)}
     return sorted(s)
 
@@ -662,12 +664,21 @@ def clause_b(b, ev, vd, tier, work, rng, rich, mmp):
         if not P or P.get("unsupported") or "fatal" in P:
             ev.cov.setdefault("b_not_decided", []).append(p); continue
         before = (markers(P), other_errors(P))
+        if before[0]:
+            # the untouched image already holds checksums the format does not define: that is clause (a)'s verdict (the base case
+            # of every image used here is among its mandatory cases); "stale after the flip" cannot be observed on such an image
+            if not (vd.viol or vd.hit_known):
+                die_broken("the reader finds stale checksums %s in the untouched image %s but clause (a) reported nothing" % (sorted(before[0])[:5], p))
+            ev.cov.setdefault("b_not_decided", []).append("%s: stale before any flip (clause a reports it): %s" % (p, sorted(before[0])[:5]))
+            continue
         objs = objects(P, imgs[p], p in isrich)
         if tier == "quick" and p in isrich and p != "g128_i512_crc32c_noflex":
             objs = [o for o in objs if o["type"] in ("gd", "bb", "ib", "inode")]      # what depends on the descriptor / inode size
         for o in objs:
-            full = tier == "thorough" and (o["type"], o["dsize"], o["isize"]) not in full_done and obj_size(o) <= 1024
-            if full: full_done.add((o["type"], o["dsize"], o["isize"]))
+            # one complete sweep per object type and per size the covered range depends on
+            fkey = (o["type"], o["dsize"] if o["type"] == "gd" else min(o["dsize"], 64) if o["type"] in ("bb", "ib") else 0, o["isize"], o["hi"])
+            full = tier == "thorough" and fkey not in full_done and obj_size(o) <= 1024
+            if full: full_done.add(fkey)
             for off in offsets(o, tier, rng, full, p in isrich):
                 cases.append((p, o, off, rng.randrange(8), before))
     with cf.ProcessPoolExecutor(max_workers=JOBS) as ex:
